@@ -134,6 +134,36 @@ func c08Entries() []c08Entry {
 			var s string
 			unmarshalIDString(b, &id, &s)
 		}},
+		{"pkg.validateResponse+client-decode", func(t byte) bool { return t >= 100 && t <= 110 || t == rfExtendedReply }, func(b []byte) {
+			// the client validates a response in recv and then decodes it with the unchecked helpers:
+			// whatever validateResponse lets through must be safe for them
+			typ, data := fxp(b[0]), b[1:]
+			if validateResponse(typ, data) != nil {
+				return
+			}
+			id, rest := unmarshalUint32(data)
+			switch typ {
+			case sshFxpStatus:
+				unmarshalStatus(id, data)
+			case sshFxpHandle:
+				unmarshalString(rest)
+			case sshFxpData:
+				l, d := unmarshalUint32(rest)
+				_ = d[:l]
+			case sshFxpAttrs:
+				unmarshalAttrs(rest)
+			case sshFxpName:
+				count, d := unmarshalUint32(rest)
+				for i := uint32(0); i < count; i++ {
+					_, d = unmarshalString(d)
+					_, d = unmarshalString(d)
+					var err error
+					if _, d, err = unmarshalAttrs(d); err != nil {
+						break
+					}
+				}
+			}
+		}},
 		{"fx.RequestPacket.UnmarshalBinary", isReq, func(b []byte) {
 			var q sshfx.RequestPacket
 			q.UnmarshalBinary(b)
